@@ -80,6 +80,7 @@ def gen_signal(rng, g, i=None, kinds=None):
     if pk == 'custom_scalar' and pform in ('array', 'list'):
         pform = 'callable'
     path['form'] = pform
+    path['np64'] = bool(rng.integers(2))
     tk = stratum(TPROF_KINDS, 5)
     tprof = {'level': float(common.pick(rng, [1.0, 2.0, 10.0, 0.37, 1e3]))}
     if tk == 'sine':
@@ -98,6 +99,7 @@ def gen_signal(rng, g, i=None, kinds=None):
         tprof.update(kind=tk)
     tform = stratum(TPROF_FORMS, 7)
     tprof['form'] = tform
+    tprof['np64'] = bool(rng.integers(2))
     if tform == 'int':
         tprof['level'] = float(max(1, int(tprof['level'])))
     fk = stratum(FPROF_KINDS, 11)
@@ -116,6 +118,7 @@ def gen_signal(rng, g, i=None, kinds=None):
     bp = {'kind': bk, 'level': float(common.pick(rng, [1.0, 0.5, 0.25])), 'cycles': float(rng.uniform(0.3, 3))}
     if bk == 'scalar' and rng.random() < 0.3:
         bp['level'] = 1                                    # python int
+    bp['np64'] = bool(rng.integers(2))
     return dict(path=path, tprof=tprof, fprof=fprof, bp=bp)
 
 
